@@ -24,5 +24,7 @@ for m in muts:
             print("%-45s %s exit=%d violations=%d %.0fs  %s" % (m["name"], prop, r.returncode, len(viol), time.time() - t, (viol[0][:160] if viol else r.stdout.strip().splitlines()[-1][:160] if r.stdout.strip() else r.stderr[-200:])))
     finally:
         subprocess.run(["git", "-C", "/repo", "checkout", "--", m["file"]])
+if not flt:
+    json.dump([{"name": r[0], "prop": r[1], "exit": r[2], "violations": r[3]} for r in results], open(os.path.join(ROOT, "tools", "mutation_results.json"), "w"), indent=1)
 caught = sum(1 for r in results if r[2] == 1)
 print("caught %d of %d" % (caught, len(results)))
